@@ -236,6 +236,21 @@ def _roundtrip_expected(spec, schema, obj, prog):
     return inp, outp, vals
 
 
+def _drop_empty_branches(d):
+    if not isinstance(d, dict):
+        return d
+    out = {}
+    for k, v in d.items():
+        if isinstance(v, dict):
+            v2 = _drop_empty_branches(v)
+            if v2 == {} and v != {} or v == {}:
+                continue
+            out[k] = v2
+        else:
+            out[k] = v
+    return out
+
+
 def c01_program(spec, cfgs, report):  # noqa: C901
     if spec["kind"] == "kwinit":
         return
@@ -306,7 +321,16 @@ def c01_program(spec, cfgs, report):  # noqa: C901
                     ok = set(back.value) == set(want)
                 if not ok:
                     feature = sorted(k for c in cfgs for k in c if k != "chain")
-                    report.violation({"check": "C01.models", "problem": "load_failed" if not back.ok else "value_changed", "features": feature},
+                    cause = {}
+                    if back.ok and type(back.value) is type(obj):
+                        # root-cause discriminator: the only difference is that a field collecting extras also received the (empty)
+                        # remainder of a nested branch the layout itself consumed
+                        got_vals = field_values(back.value, spec)
+                        if all(same(got_vals.get(f, "<absent>"), v) or
+                               (isinstance(got_vals.get(f), dict) and same(_drop_empty_branches(got_vals[f]), v)) for f, v in want.items()):
+                            cause = {"cause": "nested_branch_collected_as_extra"}
+                    report.violation({"check": "C01.models", "problem": "load_failed" if not back.ok else "value_changed", "features": feature,
+                                      **cause},
                                      f"{spec['kind']} {spec['fields']} {cfgs} [{mode_name(mode)}, {tname}]: {vname} dumped to "
                                      f"{codec.show(d.value, 80)} "
                                      + (f"load raised {type(back.exc).__name__}: {str(back.exc)[:80]}" if not back.ok
